@@ -579,6 +579,84 @@ def gen_fixedrect(rng, idx):
             'side': ['min-X', 'max-X', 'min-Y', 'max-Y'][side], 'transposed': transposed, 'start': start, 'pad': pad}
 
 
+def gen_callseq(rng, idx):
+    """family 'callseq' (seeded change C08-6): setAvoidNodeOverlaps is called 2-3 times on ONE layout object with different group lists
+    before makeFeasible() and / or between makeFeasible() and run().  Nodes start piled up and every edge has an ideal length far below
+    the node sizes, so two nodes stay apart only if a non-overlap constraint is generated for the pair; every pair that some EARLIER
+    call exempted is joined by an edge (the bait).  The exemptions in force - and the pair obligation of the checker - are those of the
+    LAST call (obliged_pairs of the extracted model, C08_obliged_pairs_after_calls)."""
+    n = rng.range(4, 8)
+    shape = ['disjoint', 'shrink', 'grow', 'to_empty', 'off_on', 'three', 'false_first', 'off_last', 'disjoint', 'shrink'][idx % 10]
+    when = ['before', 'before', 'between', 'before', 'split'][(idx // 10) % 5]
+    nodes = rng.shuffle(list(range(n)))
+    A = sorted(nodes[:rng.range(2, 3)])
+    B = sorted(nodes[len(A):len(A) + rng.range(2, 3)])[:max(2, n - len(A))]
+    T, F = True, False
+    if shape == 'disjoint':
+        seq = [(T, [A]), (T, [B])]
+    elif shape == 'shrink':
+        big = sorted(set(A + B[:1]))
+        seq = [(T, [big]), (T, [big[1:]] if rng.chance(1, 2) else [big[:-1]])]
+    elif shape == 'grow':
+        seq = [(T, [A]), (T, [sorted(A + B[:1])] if rng.chance(1, 2) else [A, B])]
+    elif shape == 'to_empty':
+        seq = [(T, [A] if rng.chance(1, 2) else [A, B]), (T, [])]
+    elif shape == 'off_on':
+        seq = [(T, [A]), (F, [] if rng.chance(1, 2) else [A]), (T, [B] if rng.chance(1, 2) else [])]
+    elif shape == 'three':
+        seq = [(T, [A]), (T, [B]), (T, [[A[0], B[0]]] if rng.chance(1, 2) else [A[:1] + B[1:]])]
+    elif shape == 'false_first':
+        seq = [(F, [A]), (T, [B])]
+    else:
+        seq = [(T, [A]), (F, [A] if rng.chance(1, 2) else [B])]
+    if rng.chance(1, 5):
+        seq = [(av, [rng.shuffle(g + g[:1]) for g in gs]) for av, gs in seq]      # unsorted groups with a duplicate id
+    calls = []
+    for k, (av, gs) in enumerate(seq):
+        last = k == len(seq) - 1
+        phase = 0 if when == 'before' else (1 if (when == 'between' and k > 0) or (when == 'split' and last) else 0)
+        calls.append({'phase': phase, 'avoid': av, 'groups': gs})
+    stale = sorted(set((min(a, b), max(a, b)) for _, gs in seq[:-1] for g in gs for a in g for b in g if a != b
+                       and not declared_exempt(seq[-1][1], a, b)))
+    rects = []
+    start = rng.choice(['coincident', 'piled', 'piled', 'row'])
+    for i in range(n):
+        w, h = rng.range(4, 12) * 32, rng.range(4, 12) * 32
+        if start == 'coincident':
+            cx, cy = 1600, 1600
+        elif start == 'piled':
+            cx, cy = 1600 + rng.range(-6, 6) * 16, 1600 + rng.range(-6, 6) * 16
+        else:
+            cx, cy = 1600 + i * 480, 1600 + rng.range(-3, 3) * 16
+        rects.append([cx - w // 2, cx + w // 2, cy - h // 2, cy + h // 2])
+    edges = [list(p) for p in stale]
+    for v in range(1, n):
+        e = [rng.below(v), v]
+        if e not in edges:
+            edges.append(e)
+    last_av, last_gs = seq[-1]
+    return {'n': n, 'rects': rects, 'groups': [sorted(set(g)) for g in last_gs] if last_av else [], 'clusters': [], 'ccs': [], 'edges': edges,
+            'ideal': rng.choice([16, 32, 64, 128]), 'mode': 0, 'kind': 'callseq', 'shape': shape, 'when': when, 'start': start,
+            'calls': calls, 'stale_pairs': [list(p) for p in stale]}
+
+
+def model_obligations(cases, ml):
+    """pair obligations of the call-sequence cases from the extracted model: obliged_pairs (after_calls calls) n"""
+    idx = [i for i, c in enumerate(cases) if 'calls' in c]
+    if not idx:
+        return {}, None
+    lines = [' '.join(str(int(x)) for x in [cases[i]['n']] + calls_tokens(cases[i]['calls'])) for i in idx]
+    rc, o, e, _ = C.sh([ml, 'oblige'], input='\n'.join(lines) + '\n', timeout=300)
+    o = [l for l in o.split('\n') if l.strip()]
+    if rc != 0 or len(o) != len(idx):
+        return {}, {'what': 'extracted obligation model failed to run', 'rc': rc, 'stderr': e[-1500:], 'machinery': True}
+    out = {}
+    for i, l in zip(idx, o):
+        t = [int(x) for x in l.split()]
+        out[i] = [(t[1 + 2 * k], t[2 + 2 * k]) for k in range(t[0])]
+    return out, None
+
+
 def layout_line(c):
     t = [c['n']] + [v for r in c['rects'] for v in r]
     t.append(len(c['groups']))
@@ -600,7 +678,161 @@ def layout_line(c):
         else:
             t += [3, cc['d'], cc['pos'], int(cc['fixed']), len(cc['sh'])] + [v for so in cc['sh'] for v in so]
     t += [len(c['edges'])] + [v for e in c['edges'] for v in e] + [c['ideal'], c['mode']]
+    if 'calls' in c:                            # family callseq: the complete list of setAvoidNodeOverlaps calls (replaces the default call)
+        t.append(len(c['calls']))
+        for cl in c['calls']:
+            t += [cl['phase'], int(cl['avoid']), len(cl['groups'])]
+            for g in cl['groups']:
+                t += [len(g)] + g
     return ' '.join(str(int(x)) for x in t)
+
+
+# ----------------------------------------------------------------------------------------------- call sequences (C08-6, DESIGN 9.16)
+def calls_tokens(calls):
+    t = [len(calls)]
+    for cl in calls:
+        t += [int(cl['avoid']), len(cl['groups'])]
+        for g in cl['groups']:
+            t += [len(g)] + g
+    return t
+
+
+def exempt_line(universe, calls):
+    return ' '.join(str(int(x)) for x in [len(universe)] + list(universe) + calls_tokens(calls))
+
+
+def declared_exempt(groups, a, b):
+    """the declarative right-hand side of C08_exempt_after_calls (independent of the model; used to word the report)"""
+    return a != b and any(a in g and b in g for g in groups)
+
+
+def gen_exempt_cases(rng, nrandom):
+    """(universe, calls) for the `exempt` correspondence.  Exhaustive: n = 3 with every list of <= 2 groups (groups = all 8 subsets
+    of {0,1,2}) in every sequence of <= 2 calls (5403 sequences); n = 4 with single-group calls (16 subsets) in every sequence of
+    <= 3 calls (4368).  Random: larger n, unsorted groups with duplicates, 1-4 calls shaped growing / shrinking / disjoint / same /
+    emptied / arbitrary, ids up to 65535 (ShapePair stores unsigned short)."""
+    cases = []
+    sub3 = [[v for v in range(3) if m >> v & 1] for m in range(8)]
+    lists3 = [[]] + [[g] for g in sub3] + [[g, h] for g in sub3 for h in sub3]
+    k = 0
+    for seq in [[]] + [[a] for a in lists3] + [[a, b] for a in lists3 for b in lists3]:
+        cases.append(([0, 1, 2], [{'avoid': (k + i) % 3 != 0, 'groups': gs} for i, gs in enumerate(seq)], 'exhaustive3')); k += 1
+    sub4 = [[v for v in range(4) if m >> v & 1] for m in range(16)]
+    for seq in [[a] for a in sub4] + [[a, b] for a in sub4 for b in sub4] + [[a, b, c] for a in sub4 for b in sub4 for c in sub4]:
+        cases.append(([0, 1, 2, 3], [{'avoid': (k + i) % 3 != 0, 'groups': [g]} for i, g in enumerate(seq)], 'exhaustive4')); k += 1
+    for i in range(nrandom):
+        r = rng.fork()
+        big = i % 10 == 9
+        n = r.range(2, 12) if not big else r.range(2, 6)
+        ids = list(range(n)) if not big else sorted(set([r.choice([0, 1, 255, 256, 65534, 65535, r.below(65536)]) for _ in range(n)] + [0, 65535]))
+        if i % 7 == 3:
+            ids = list(range(r.range(13, 40)))
+        def group():
+            k = r.range(0, min(5, len(ids)))
+            g = [r.choice(ids) for _ in range(k)]
+            if g and r.chance(1, 3):
+                g.append(r.choice(g))               # duplicate id
+            return g
+        def glist():
+            return [group() for _ in range(r.choice([0, 1, 1, 2, 3]))]
+        shape = ['arbitrary', 'growing', 'shrinking', 'disjoint', 'same', 'emptied', 'off_on'][i % 7]
+        ncalls = r.range(2, 4) if shape != 'arbitrary' else r.range(1, 4)
+        seq = [glist() or [group()]]
+        for _ in range(ncalls - 1):
+            prev = seq[-1]
+            if shape == 'growing':
+                seq.append([g + [r.choice(ids)] for g in prev] + [group()])
+            elif shape == 'shrinking':
+                seq.append([g[:max(0, len(g) - 1)] for g in prev][:max(1, len(prev) - r.below(2))])
+            elif shape == 'disjoint':
+                used = set(v for g in prev for v in g)
+                rest = [v for v in ids if v not in used]
+                seq.append([[r.choice(rest) for _ in range(r.range(2, 4))]] if rest else [[]])
+            elif shape == 'same':
+                seq.append([list(g) for g in prev])
+            else:
+                seq.append(glist())
+        if shape == 'emptied':
+            seq[-1] = []
+        calls = [{'avoid': True, 'groups': gs} for gs in seq]
+        if shape == 'off_on' and len(calls) >= 2:
+            calls[-2]['avoid'] = False
+        if shape == 'arbitrary':
+            for cl in calls:
+                cl['avoid'] = r.chance(2, 3)
+        extra = [r.choice(ids) for _ in range(2)]
+        universe = sorted(set(v for gs in seq for g in gs for v in g) | set(extra))[:14]
+        cases.append((universe, calls, shape))
+    return cases
+
+
+def exempt_correspondence(rng, nrandom, cpp, ml):
+    """tie for NonOverlapExemptModel.v: after every call of a sequence, shapePairIsExempt for every ordered pair of distinct ids and
+    the stored set (getExemptPairs() in iteration order), for the exemption object driven directly and for the layout object driven
+    through setAvoidNodeOverlaps (with its m_generateNonOverlapConstraints flag) - compared exactly with the extracted model.  The
+    model answers are, by C08_exempt_after_calls / C08_options_after_calls, those of the LAST call."""
+    cases = gen_exempt_cases(rng, nrandom)
+    for f in sorted(os.listdir(os.path.join(C.VERIF, 'corpus'))):
+        if f.startswith('c08_exempt_') and f.endswith('.json'):
+            e = json.load(open(os.path.join(C.VERIF, 'corpus', f)))
+            cases.insert(0, (e['universe'], e['calls'], 'corpus'))
+    lines = [exempt_line(u, calls) for u, calls, _ in cases]
+    stats = {'sequences': len(cases), 'by_shape': {}, 'calls': 0, 'pair_answers_compared': 0, 'exempt_answers': 0, 'disagreements': 0,
+             'exhaustive': 'n=3: every list of <=2 groups over all 8 subsets, every sequence of <=2 calls (5403); n=4: single-group calls '
+                           'over all 16 subsets, every sequence of <=3 calls (4368)'}
+    viols = []
+    inp = '\n'.join(lines) + '\n'
+    rc1, o1, e1, _ = C.sh([cpp, 'exempt'], input=inp, timeout=900)
+    rc2, o2, e2, _ = C.sh([ml, 'exempt'], input=inp, timeout=900)
+    o1 = [l for l in o1.split('\n') if l.strip()]
+    o2 = [l for l in o2.split('\n') if l.strip()]
+    if rc1 != 0 or rc2 != 0 or len(o1) != 2 * len(cases) or len(o2) != 2 * len(cases):
+        viols.append({'what': 'exemption harness or model driver failed', 'rc_cpp': rc1, 'rc_model': rc2, 'stderr_cpp': e1[-1500:],
+                      'stderr_model': e2[-1500:], 'lines_cpp': len(o1), 'lines_model': len(o2), 'expected_lines': 2 * len(cases), 'machinery': True})
+        stats['disagreements'] = 1
+        return viols, stats
+    bad = []
+    for i, (u, calls, shape) in enumerate(cases):
+        stats['by_shape'][shape] = stats['by_shape'].get(shape, 0) + 1
+        stats['calls'] += len(calls)
+        stats['pair_answers_compared'] += 2 * len(calls) * len(u) * (len(u) - 1)
+        stats['exempt_answers'] += sum(seg.split(' b')[-1].count('1') for seg in o1[2 * i].split(' C')[1:])
+        if o1[2 * i] != o2[2 * i] or o1[2 * i + 1] != o2[2 * i + 1]:
+            bad.append(i)
+    stats['disagreements'] = len(bad)
+    if bad:
+        bad.sort(key=lambda i: (len(lines[i]), i))
+        rep = bad[:2]
+        # diagnosis: does the implementation behave like the model WITHOUT m_exempt_pairs.clear()?
+        rc3, o3, _, _ = C.sh([ml, 'exempt-noclear'], input='\n'.join(lines[i] for i in rep) + '\n', timeout=300)
+        o3 = [l for l in o3.split('\n') if l.strip()]
+        for r, i in enumerate(rep):
+            u, calls, shape = cases[i]
+            which = 0 if o1[2 * i] != o2[2 * i] else 1
+            a, b = o1[2 * i + which], o2[2 * i + which]
+            # first call and pair whose answer differs, worded with the declarative condition
+            detail = None
+            sa, sb = a.split(' C')[1:], b.split(' C')[1:]
+            prs = [(x, y) for x in u for y in u if x != y]
+            for k, (xa, xb) in enumerate(zip(sa, sb)):
+                ba, bb = xa.split(' b')[-1].strip(), xb.split(' b')[-1].strip()
+                for m, (p, q) in enumerate(zip(ba, bb)):
+                    if p != q and detail is None:
+                        x, y = prs[m]
+                        detail = {'after_call_number': k + 1, 'pair': [x, y], 'shapePairIsExempt_implementation': p == '1',
+                                  'declared_exempt_by_that_call': declared_exempt(calls[k]['groups'], x, y),
+                                  'groups_of_that_call': calls[k]['groups'], 'earlier_calls': [cl['groups'] for cl in calls[:k]]}
+                if detail is None and xa != xb:
+                    detail = {'after_call_number': k + 1, 'stored_set_or_flag_differs': True}
+            v = {'what': 'after a sequence of setAvoidNodeOverlaps / addExemptGroupOfNodes calls the exemption set in force is not that of the '
+                         'LAST call (C08_exempt_after_calls): shapePairIsExempt / getExemptPairs() / the non-overlap flag differ from the proved model',
+                 'object': 'NonOverlapConstraintExemptions driven directly' if which == 0 else 'ConstrainedFDLayout::setAvoidNodeOverlaps',
+                 'universe': u, 'calls': calls, 'first_difference': detail, 'implementation': a[:400], 'model': b[:400], 'shape': shape,
+                 'disagreeing_sequences': len(bad), 'replay': 'echo "%s" | <c08_no harness> exempt' % lines[i]}
+            if rc3 == 0 and len(o3) == 2 * len(rep):
+                v['implementation_equals_model_without_clear'] = (o3[2 * r] == o1[2 * i] and o3[2 * r + 1] == o1[2 * i + 1])
+            viols.append(v)
+    return viols, stats
 
 
 def parse_layout(line, n):
@@ -722,13 +954,16 @@ def obligations(c):
     return pairs, boxes
 
 
-def layouts(rng, ncases, cpp, ml, ncc=0, nfix=0):
+def layouts(rng, ncases, cpp, ml, ncc=0, nfix=0, nseq=0):
     cases = [gen_layout(rng.fork(), i) for i in range(ncases)]
     rr = rng.fork()
     cases += [gen_cluster_cc(rr.fork(), i) for i in range(ncc)]
     rf = rng.fork()
     off = rf.below(20)                          # so that every (side, variant) combination meets different sizes over the seeds
     cases += [gen_fixedrect(rf.fork(), off + i) for i in range(nfix)]
+    rs = rng.fork()
+    off = rs.below(50)
+    cases += [gen_callseq(rs.fork(), off + i) for i in range(nseq)]
     for f in sorted(os.listdir(os.path.join(C.VERIF, 'corpus'))):
         if f.startswith('c08_layout_') and f.endswith('.json'):
             cases.insert(0, json.load(open(os.path.join(C.VERIF, 'corpus', f))))
@@ -744,6 +979,9 @@ def layouts(rng, ncases, cpp, ml, ncc=0, nfix=0):
                       'replay': 'echo "%s" | <c08_no harness> layout' % (lines[done] if bad else '')})
         cases = cases[:done]
     chk, idx, obl = [], [], []
+    mobl, mfail = model_obligations(cases, ml)
+    if mfail:
+        viols.append(mfail)
     for i, c in enumerate(cases):
         stats['layouts'] += 1
         stats['by_kind'][c['kind']] = stats['by_kind'].get(c['kind'], 0) + 1
@@ -791,6 +1029,18 @@ def layouts(rng, ncases, cpp, ml, ncc=0, nfix=0):
             fam['with_padding'] += 1 if c.get('pad') else 0
             fam['child_starts_across_wall'] += 1 if c.get('start') == 'wall' else 0
         pairs, boxes = obligations(c)
+        if 'calls' in c:
+            # the exemptions in force are those of the LAST setAvoidNodeOverlaps call: pair list from the extracted, proved model
+            if i not in mobl:
+                continue
+            pairs = mobl[i]
+            fam = stats.setdefault('callseq_family', {'in_domain': 0, 'by_shape': {}, 'by_when': {}, 'pairs_exempt_only_in_an_earlier_call': 0,
+                                                      'last_call_switches_avoidance_off': 0})
+            fam['in_domain'] += 1
+            fam['by_shape'][c.get('shape', '?')] = fam['by_shape'].get(c.get('shape', '?'), 0) + 1
+            fam['by_when'][c.get('when', '?')] = fam['by_when'].get(c.get('when', '?'), 0) + 1
+            fam['pairs_exempt_only_in_an_earlier_call'] += len([p for p in c.get('stale_pairs', []) if tuple(p) in set(pairs)])
+            fam['last_call_switches_avoidance_off'] += 0 if c['calls'][-1]['avoid'] else 1
         fixed = fixed_obligations(c)
         t = [TOL.numerator, TOL.denominator, GRID, c['n']]
         for q in r['R']:
@@ -835,6 +1085,10 @@ def layouts(rng, ncases, cpp, ml, ncc=0, nfix=0):
                     v = {'what': 'two non-exempt node rectangles overlap by more than 1e-3 in both dimensions after makeFeasible()+run(), nothing reported unsatisfiable',
                          'nodes': [a, b], 'final': [r['R'][a], r['R'][b]], 'final_all': r['R'], 'case': c,
                          'replay': 'echo "%s" | <c08_no harness> layout' % lines[i]}
+                    if 'calls' in c:
+                        v['setAvoidNodeOverlaps_calls'] = c['calls']
+                        v['exempt_in_an_earlier_call_only'] = [a, b] in c.get('stale_pairs', [])
+                        v['what'] += ' (exemptions in force = those of the LAST of %d setAvoidNodeOverlaps calls)' % len(c['calls'])
                     if stale_bounds_explains(c, 'pair', a, b):
                         v['fingerprint'] = 'fixedrect_child_cluster_bounds_stale'
                     viols.append(v)
@@ -880,7 +1134,10 @@ def run(tier):
     ncc = 250 if tier == 'quick' else 2000
     nfix = 400 if tier == 'quick' else 3000
     cases, diffs, hist, ntriv, samples = correspondence(rng.fork(), ncorr, cpp, ml)
-    lcases, viols, stats = layouts(rng.fork(), nlay, cpp, ml, ncc=ncc, nfix=nfix)
+    nseq = 300 if tier == 'quick' else 2500
+    lcases, viols, stats = layouts(rng.fork(), nlay, cpp, ml, ncc=ncc, nfix=nfix, nseq=nseq)
+    eviols, estats = exempt_correspondence(rng.fork(), 700 if tier == 'quick' else 6000, cpp, ml)
+    viols = viols + eviols
     vdiffs, vstats = varlayout_correspondence([c for c in lcases if c.get('kind') in ('clusters', 'clusters+cc', 'fixedrect') or c.get('ccs')
                                                or c.get('clusters')], cpp, ml)
     diffs = diffs + vdiffs
@@ -908,9 +1165,10 @@ def run(tier):
         'distinct_nontrivial': ntriv + stats['in_domain'],
         'rule': 'correspondence: generated lists that are non-empty; V: layouts in the domain (nothing reported unsatisfiable, returned normally)',
         'exhaustive': False, 'samples': samples,
-        'traces_validated_against_impl': sum(hist.values()) + vstats['lines_compared'],
+        'traces_validated_against_impl': sum(hist.values()) + vstats['lines_compared'] + 2 * estats['sequences'],
         'correspondence': {'cases': len(cases), 'lists_compared': sum(hist.values()), 'disagreements': len(diffs), 'histogram': hist},
         'variable_layout_correspondence': vstats,
+        'exemption_call_sequence_correspondence': estats,
         'layout_validation': stats})
     return res.finish()
 
@@ -923,6 +1181,11 @@ def replay(path):
         cpp = C.build_harness('c08_no', ['libcola', 'libvpsc'], 'exc')
         layout = 'layout' in obj['replay']
         rc, out, err, dt = C.sh([cpp, 'layout' if layout else 'gen', '8'], input=(layout_line(case) if layout else case_line(case)) + '\n', timeout=120)
+        print('--- implementation now:\n' + out)
+        return 0
+    if 'calls' in obj and 'universe' in obj:
+        cpp = C.build_harness('c08_no', ['libcola', 'libvpsc'], 'exc')
+        rc, out, err, dt = C.sh([cpp, 'exempt'], input=exempt_line(obj['universe'], obj['calls']) + '\n', timeout=120)
         print('--- implementation now:\n' + out)
     return 0
 
